@@ -8,6 +8,7 @@ CONSTANTS
   Placement <- MC_Placement
   Defects <- MC_Defects
   IOModes <- MC_IOModes
+  Lines <- MC_Lines
 CHECK_DEADLOCK FALSE
 INVARIANTS
   ExactlyOnce Settled NoLostWakeup SpawnerGetsPid SpawnExactlyOnce
